@@ -8,7 +8,7 @@ TRUSTED = C17.TRUSTED + ['translator/tables.py: guards of the subproblem-solver 
 def correspondence(ctx):
     C17.correspondence(ctx, ctx.scale(64, 800), ctx.scale(30, 60))
 PERRUN = ['Char_model.v', 'C17.v', 'Slots.v', 'C04.v', 'C08.v']   # 'a finite best point is never displaced' rests on C04's obligations (incumbent saved before a soft restart, admissible slots)
-GEN = ('Gen_util', 'Gen_model', 'Gen_tables')
+GEN = ('Gen_util', 'Gen_model', 'Gen_controller', 'Gen_tables')
 
 
 def run(ctx):
